@@ -300,9 +300,10 @@ func (b *Batcher) trySendBatchAndUnlock(batch *Batch) {
 	batch.seq = b.outSeq
 	b.outSeq++
 	b.batch = nil
-	b.mu.Unlock()
-
+	// send before unlocking: Stop closes the channel under the same lock. It can't block,
+	// the channel has room for every batch that exists.
 	b.fullBatches <- batch
+	b.mu.Unlock()
 }
 
 func (b *Batcher) getBatch() *Batch {
